@@ -212,6 +212,9 @@ def expr4(n, c: Ctx, subst, src):
         if f_ == "list" and isinstance(a0, ast.Call) and unparse(a0.func) == "filter" and len(a0.args) == 2 and not a0.keywords \
                 and unparse(a0.args[0]) == "bool":
             return f"(EComp (EVar \"<item>\") \"<item>\" {expr(a0.args[1], c, subst)} (Some (EVar \"<item>\")))"
+    if isinstance(n, ast.Call) and unparse(n.func) == "functools.partial" and len(n.args) == 2 and not n.keywords and unparse(n.args[0]) in c.consts:
+        # functools.partial(f, x) for a named function f: a new callable object, kept as a record
+        return f"(ERec \"functools.partial\" [(\"func\", (EConst {cstr(c.consts[unparse(n.args[0])])})); (\"arg\", {expr(n.args[1], c, subst)})])"
     if isinstance(n, ast.Call) and isinstance(n.func, ast.Name) and n.func.id in c.record_ctors and not n.keywords \
             and len(n.args) == len(c.record_ctors[n.func.id]):
         fs_ = "; ".join(f"({cstr(k)}, {expr(a, c, subst)})" for k, a in zip(c.record_ctors[n.func.id], n.args))
